@@ -24,8 +24,7 @@ NOT_DECIDED = ["completeness / no duplicates under concurrent writers (schedules
 ASSUMPTIONS = ["crossbeam SkipMap iteration is ordered by key (library contract)"]
 
 
-def check_pair(ctx):
-    inst = "C14.pair"
+def check_pair(ctx, inst="C14.pair"):
     for (b, n, kind) in S.pub_sites(ctx, inst, kinds=("new", "repl", "ttl", "rem", "rec")):
         if kind == "new":
             t = ctx.sites(b, R.call("FeoxStore::insert_into_tree"), inst, floor=1)
@@ -34,18 +33,21 @@ def check_pair(ctx):
             for x in t:
                 S.check_held(ctx, inst, b, x, "L_hb", "ordered-index insertion happens under the bucket guard")
                 _same_key(ctx, inst, b, n, x, 0, 1)
+                a = R.arg_expr(b, b.nodes[n], 1)
+                c = R.arg_expr(b, b.nodes[x], 2)
+                ctx.check(a.key() == c.key() and a.k != "unknown", inst, "PROVENANCE", b.path, "the new tree node holds the same record as the hash entry", b.where(x),
+                          {"hash": a.show(), "slot": c.show()})
         elif kind in ("repl", "ttl"):
             t = ctx.sites(b, R.call("FeoxStore::publish_to_tree"), inst, exact=1)
             R.follow(ctx, inst, b, [n], t, "a replacement is mirrored into the ordered-index slot", exits=b.return_nodes() + R.call("HashMap::entry")(b), b_desc="publish_to_tree")
             R.dom(ctx, inst, b, [n], t, "the slot is swapped only after the hash index was updated", a_desc="entry.insert")
             for x in t:
                 S.check_held(ctx, inst, b, x, "L_hb", "slot swap happens under the bucket guard")
-                if kind == "repl":
-                    # the record stored into the slot is the record put into the hash entry
-                    a = R.arg_expr(b, b.nodes[n], 1)
-                    c = R.arg_expr(b, b.nodes[x], 2)
-                    ctx.check(a.key() == c.key(), inst, "PROVENANCE", b.path, "the slot receives the same record as the hash entry", b.where(x),
-                              {"hash": a.show(), "slot": c.show()})
+                # the record stored into the slot is the record put into the hash entry
+                a = R.arg_expr(b, b.nodes[n], 1) if kind == "repl" else A.tracer(b).node_value(n)
+                c = R.arg_expr(b, b.nodes[x], 2)
+                ctx.check(a.key() == c.key() and a.k != "unknown", inst, "PROVENANCE", b.path, "the slot receives the same record as the hash entry", b.where(x),
+                          {"hash": a.show(), "slot": c.show()})
         elif kind == "rem":
             t = [x for x in V.TREE_REMOVE(b)] + R.call("FeoxStore::remove_from_tree")(b)
             ctx.check(len(t) == 1, inst, "anchor", b.path, "one ordered-index removal (found %d)" % len(t), b.where(n))
@@ -61,6 +63,11 @@ def check_pair(ctx):
             t = ctx.sites(b, V.TREE_INSERT, inst, exact=1)
             R.follow(ctx, inst, b, [n], t, "a recovered record is inserted into the ordered index", exits=b.return_nodes() + R.call("RecoveryScanner::block")(b), b_desc="tree.insert")
             R.dom(ctx, inst, b, [n], t, "recovery inserts tree nodes only for published records", a_desc="upsert")
+            for x in t:
+                a = R.arg_expr(b, b.nodes[n], 2)
+                c = R.arg_expr(b, b.nodes[x], 2)
+                same = {y.key() for y in a.walk() if y.k in ("local", "call") and "Record" in (y.ty or "")} & {y.key() for y in c.walk() if y.k in ("local", "call") and "Record" in (y.ty or "")}
+                ctx.check(bool(same), inst, "PROVENANCE", b.path, "the recovered tree node holds the record put into the hash index", b.where(x), {"hash": a.show()[:80], "slot": c.show()[:80]})
 
 
 def _same_key(ctx, inst, b, hash_site, tree_site, hash_arg, tree_arg):
